@@ -171,6 +171,20 @@ theorem normalize_inter_value_counterexample :
 
 example : ¬ NoGap 3 1 (-4) := by decide
 
+/-- **the full statement holds for the proposed repair** (docs/C08.md, "Repair"): with `gap` extra
+carry-only steps over the gap, the same-radix normalisation represents `a·2^off` within one unit of
+the last output limb for *every* offset (no `NoGap` hypothesis); digits balanced. -/
+theorem normalize_inter_value_repaired {bits b : Nat} {H : Int} (hr : HeadRoom bits b 0 H)
+    (rs : Nat) (hrs : 1 ≤ rs) (off : Int) (a : List Int) (ha : ∀ x ∈ a, |x| ≤ H) :
+    (normalizeInterCoefRepaired bits b rs off a).length = rs ∧
+    (∀ d ∈ normalizeInterCoefRepaired bits b rs off a, Balanced b d) ∧
+    TorusNear (valI b (normalizeInterCoefRepaired bits b rs off a)) (b * rs)
+      (valI b a * 2 ^ off.toNat) (b * a.length + (-off).toNat) :=
+  normalizeInterCoefRepaired_value hr rs hrs off a ha
+
+/-- on the witness of the defect the repaired routine returns the correct rounding `0` -/
+example : normalizeInterCoefRepaired 64 3 1 (-4) [-4] = [0] := by decide
+
 /-! ### vec_znx_normalize_assign -/
 
 /-- **`vec_znx_normalize_assign`**: same length, balanced digits, and exactly the same torus element -/
